@@ -143,6 +143,18 @@ Definition evaluate (cs : list tcase) : list (list N) :=
   map (fun v => indices_where (fun c => negb (agree v c)) cs) variants
   ++ [ indices_where (fun c => negb (spec_ok c)) cs ].
 
+(** is there an op on which the spec fails on the implementation's observation AND the pinned model does
+    not predict that observation?  (a spec failure the known deviations do not explain) *)
+Fixpoint unexplained_run (dss : list Z) (rc rf : rstore) (ops : list qop) : bool :=
+  match ops with
+  | [] => false
+  | QWrite w :: ops' =>
+    unexplained_run dss (rapply (v_eq v_current) (v_dup v_current) rc w) (rapply eq_full DupLocalElseStored rf w) ops'
+  | o :: ops' => (negb (spec_op_ok dss rf o) && negb (agree_op v_current dss rc o)) || unexplained_run dss rc rf ops'
+  end.
+Definition unexplained (c : tcase) : bool := unexplained_run (tc_ds c) rstore0 rstore0 (tc_ops c).
+Definition unexplained_all (cs : list tcase) : list (list N) := [indices_where unexplained cs].
+
 (** diagnostics: index of the first op the model (variant v) does not predict, and the model's pages for it *)
 Fixpoint first_bad (v : variant) (dss : list Z) (rs : rstore) (ops : list qop) (i : N) : option N :=
   match ops with
